@@ -166,6 +166,11 @@ func genC10Command(t *simrt.Tape, file string) (string, bool) {
 			cmd += fmt.Sprintf(" %d", 1+t.Choose(K, 4))
 		}
 	}
+	if t.Bool(K, 8) {
+		// an output file that cannot be opened: the command fails late, after
+		// its report has been rendered
+		return cmd + " >/no/such/dir/" + file, mut
+	}
 	return cmd + " >" + file, mut
 }
 
@@ -211,6 +216,8 @@ func c10Interactive(x *xctx) *violation {
 		x.tr("line %q", s.line)
 	}
 	cfg := simrt.Config{Strategy: simrt.StratRunToBlock}
+	sessionNoDot = t.Bool(simrt.KCfg, 25)
+	defer func() { sessionNoDot = false }()
 	freshProcess(true)
 	sess := runInteractive(x, cfg, prof, nil, lines, nil)
 	if v := resultViolation(sess.res); v != nil {
